@@ -40,7 +40,7 @@ PROPS = {
                 level="exploration", batch=8),
     "C08": dict(engine="store", gen="gen_c08", nops=(3, 8), runs={"quick": 400, "thorough": 8000},
                 level="exploration", batch=6),
-    "C09": dict(engine="store", gen="gen_c09", nops=(4, 4), runs={"quick": 320, "thorough": 12000},
+    "C09": dict(engine="store", gen="gen_c09", nops=(4, 7), runs={"quick": 320, "thorough": 12000},
                 level="exploration", batch=6),
     "C17": dict(engine="store", gen="gen_c17", nops=(2, 6), runs={"quick": 480, "thorough": 7000},
                 level="exploration", faults=True, batch=8),
